@@ -158,7 +158,15 @@ fn reshape(m: &mut Maps, k: usize, rng: &mut Rng) {
 fn reshape_diff(d: &mut MapsDiff, rng: &mut Rng) {
     // make "removal of exactly the placeholder" frequent: the rewritten action then changes nothing
     let fix = |a: &mut Act<String>, ph: String, rng: &mut Rng| { if let Act::Remove(x) = a { if rng.chance(1, 3) { *x = ph; } } };
+    // near-equal edits: the two names differ, but share the part after the last `$` / `/`, or one extends the other; a filter that
+    // compares only a part of the names would call such an edit "no change". Now and then the node is stripped of everything else
+    // (comment action, members), so that keeping or dropping it depends on the action alone.
+    let near = |a: &mut Act<String>, rng: &mut Rng| -> bool { if let Act::Edit(x, y) = a { if rng.chance(1, 4) {
+        let tail = rng.pick(&["Thing", "Widget", "C_1", "v"]).to_string();
+        (*x, *y) = match rng.below(5) { 0 => (format!("old/Holder${tail}"), format!("fresh/Owner${tail}")), 1 => (format!("Outer${tail}"), tail.clone()), 2 => (format!("a/{tail}"), format!("b/{tail}")), 3 => (tail.clone(), format!("{tail}x")), _ => (tail.to_lowercase(), tail.clone()) };
+        return x != y; } } false };
     for (ck, c) in d.classes.iter_mut() {
+        if near(&mut c.name, rng) && rng.chance(1, 2) { c.comment = Act::None; c.fields.clear(); c.methods.clear(); }
         fix(&mut c.name, innermost(ck).to_string(), rng);
         for (fk, f) in c.fields.iter_mut() { fix(&mut f.name, fk.0.clone(), rng); }
         for (mk, me) in c.methods.iter_mut() { fix(&mut me.name, mk.0.clone(), rng); for (i, p) in me.params.iter_mut() { fix(&mut p.name, format!("p_{i}"), rng); } }
